@@ -96,3 +96,89 @@ def gate(chk, fn, rule, fk, action_bbs, guard_pred, what, need="pos", ok_detail=
                 found.add(r)
         chk.decide(need in found, rule, fk, what, fn.where(ab), ok_detail,
                    (bad_detail or "action is not gated") + " [action at %s, guards seen: %s]" % (fn.where(ab), sorted(found) or "none"))
+
+
+# --- cut-set gates ------------------------------------------------------------------------
+
+def switch_tests(fn):
+    """Yield (switch_bb, kind, apath, info) for every switch terminator outside cleanup blocks.
+    kind: 'bool' | 'variant' | 'int'."""
+    for s, b in enumerate(fn.blocks):
+        if b["cleanup"] or b["term"]["k"] != "switch":
+            continue
+        info = fn.switch_info(s)
+        if info["kind"] == "discr":
+            yield s, "variant", fn.apath_place(info["place"]), info
+        elif info["kind"] == "bool":
+            yield s, "bool", fn.apath(b["term"]["discr"]), info
+        else:
+            yield s, "int", fn.apath(b["term"]["discr"]), info
+
+
+def edge_names(fn, s, kind, info):
+    """[(label, target, name)] with name 'true'/'false' for bool tests and the variant name for enums."""
+    out = []
+    if kind == "bool":
+        for lab, tgt in fn.succs(s):
+            out.append((lab, tgt, "false" if lab == 0 else "true"))
+    elif kind == "variant":
+        named = set()
+        for v, tgt in info["targets"]:
+            n = info["variants"].get(v, str(v))
+            named.add(n)
+            out.append((v, tgt, n))
+        rest = [n for n in info["variants"].values() if n not in named]
+        out.append(("otherwise", info["otherwise"], "|".join(rest) if rest else "otherwise"))
+    else:
+        for lab, tgt in fn.succs(s):
+            out.append((lab, tgt, str(lab)))
+    return out
+
+
+def peel_not(ap):
+    """Strip `!` wrappers: returns (apath, flipped)."""
+    flip = False
+    while ap[0][0] == "unop" and ap[0][1] == "Not" and not ap[1]:
+        ap = ap[0][2]
+        flip = not flip
+    return ap, flip
+
+
+def cut_gate(fn, actions, accept):
+    """Delete the accepting edges of every test matched by accept(kind, apath, info) -> set of accepting edge
+    names (or None when the test is not a guard of interest).  Returns (unreached_ok: {action: bool}, matched tests)."""
+    cut = set()
+    matched = []
+    for s, kind, ap, info in switch_tests(fn):
+        flip = False
+        if kind == "bool":
+            ap, flip = peel_not(ap)
+        acc = accept(kind, ap, info)
+        if acc is None:
+            continue
+        if flip:
+            acc = {{"true": "false", "false": "true"}.get(a, a) for a in acc}
+        matched.append(s)
+        for lab, tgt, name in edge_names(fn, s, kind, info):
+            names = set(name.split("|"))
+            if names & set(acc):
+                cut.add((s, lab, tgt))
+    reach = fn.reachable(0, cut_edges=cut)
+    return {a: (a not in reach) for a in actions}, matched
+
+
+def gate_rule(chk, fn, rule, fk, what, actions, accept, ok_detail, bad_detail, min_guards=1):
+    if not actions:
+        raise AnchorLost("%s: no action site found for gate %s" % (fn.path, what))
+    res, matched = cut_gate(fn, actions, accept)
+    if len(matched) < min_guards:
+        for a in actions:
+            chk.finding(rule, fk, what, fn.where(a), "%s [no recognisable guard of this kind is left in %s]" % (bad_detail, fn.path))
+        return
+    for a, ok in sorted(res.items()):
+        chk.decide(ok, rule, fk, what, fn.where(a), ok_detail + " (%d guard test(s))" % len(matched),
+                   bad_detail + " [the action at %s stays reachable when the accepting edges of the %d matching test(s) are removed]" % (fn.where(a), len(matched)))
+
+
+def call_blocks(fn, *suffixes):
+    return [bb for bb, t in fn.calls() if "callee" in t and t["callee"]["path"].endswith(tuple(suffixes))]
